@@ -2,11 +2,11 @@
    Theorems only.  Part A is about the group-topic product model Sys/Topic.v (store rows +
    cache + handlers thisUserSub / anotherUserSub / replyDelSub / replyLeaveUnsub /
    replyOfflineTopicSetSub, every fault plan); the vocabulary (projections, "authorised
-   request" = given_just / want_just, invariants) is in Sys/TopicAcl.v.  Part B is about the
-   other topic kinds (Sys/TopicKinds.v): p2p, me, fnd, sys. *)
+   request" = given_just / want_just, invariants) is in Sys/TopicAclC07.v.  Part B is about the
+   other topic kinds (Sys/TopicKindsC07.v): p2p, me, fnd, sys. *)
 From Coq Require Import ZArith NArith List Bool.
-From Tinode Require Import Base.Util Pure.Acs Pure.Uid Pure.P2PName Pure.P2PProofs Sys.Topic Sys.TopicTac Sys.TopicMarks Sys.TopicAcl Sys.TopicAclProofs
-  Sys.TopicAclInv Sys.TopicAclJoin Sys.TopicAclOwn Sys.TopicAclThm Sys.TopicAclWitness Sys.TopicKinds Sys.TopicKindsProofs.
+From Tinode Require Import Base.Util Pure.Acs Pure.Uid Pure.P2PName Pure.P2PProofs Sys.Topic Sys.TopicTac Sys.TopicMarks Sys.TopicAclC07 Sys.TopicAclC07Proofs
+  Sys.TopicAclC07Inv Sys.TopicAclC07Join Sys.TopicAclC07Own Sys.TopicAclC07Thm Sys.TopicAclC07Witness Sys.TopicKindsC07 Sys.TopicKindsC07Proofs.
 Import ListNotations.
 Open Scope Z_scope.
 
@@ -92,7 +92,7 @@ Theorem c07_given_writers_refuted : ~ c07_given_writers_statement.
 Proof. intros H. exact (w2_rewrites_all (H w2_sm w2_x _ w2_inv w2_logged)). Qed.
 
 (* ================================================================== *)
-(* Part B: p2p, me, fnd, sys (Sys/TopicKinds.v)                         *)
+(* Part B: p2p, me, fnd, sys (Sys/TopicKindsC07.v)                         *)
 Section C07Kinds.
 Variable isroot : N -> bool.   (* the level of a user's sessions: root or not *)
 Variable suser : N -> N.       (* the user a session is logged in as *)
